@@ -350,7 +350,7 @@ def run(ctx: Ctx) -> None:
     rep.rule("C17.R13", "the key under which the codec of a result type is looked up names that type (its own __name__, not its metaclass's): results are written by the codec of "
                         "their own type")
     n13 = type_key_names_the_type(ctx, "C17.R13")
-    rep.floor("C17.R13", n13, 2)
+    rep.floor("C17.R13", n13, 1)
     from .common import kinds_not_confused
     rep.rule("C17.R14", "codec references and type names are different kinds of key (ProtocolRef / SupportedType): the read-side table is indexed by references, the write-side table by "
                         "type names (mypy): a legacy reference filed in the table of the type names is not a registered protocol, and the blobs that name it cannot be read")
@@ -381,6 +381,16 @@ def type_key_names_the_type(ctx: Ctx, rule: str) -> int:
     if not ps:
         raise AnchorError("from_type has no parameter")
     t = ps[0]
+    # the parameter and its plain aliases (`tpe = type(None) if t is None else t`: None as a shorthand of its type)
+    names_t = {t}
+    fl_ = flow_of(prog, f)
+    for st_ in f.own_nodes():
+        if isinstance(st_, (ast.Assign, ast.AnnAssign)) and st_.value is not None:
+            tg_ = st_.targets[0] if isinstance(st_, ast.Assign) else st_.target
+            v_ = st_.value
+            alts = [v_.body, v_.orelse] if isinstance(v_, ast.IfExp) else [v_]
+            if isinstance(tg_, ast.Name) and all((isinstance(a_, ast.Name) and a_.id == t) or unparse(a_) == "type(None)" for a_ in alts) and any(isinstance(a_, ast.Name) and a_.id == t for a_ in alts):
+                names_t.add(tg_.id)
     n = 0
     for r in f.own_nodes():
         if not isinstance(r, ast.Return) or r.value is None:
@@ -389,8 +399,8 @@ def type_key_names_the_type(ctx: Ctx, rule: str) -> int:
         if isinstance(r.value, ast.Call) and unparse(r.value.func).split(".")[-1] == f.name:
             continue
         n += 1
-        own = [y for y in ast.walk(r.value) if isinstance(y, ast.Attribute) and y.attr in ("__name__", "__qualname__") and isinstance(y.value, ast.Name) and y.value.id == t]
-        meta = [y for y in ast.walk(r.value) if isinstance(y, ast.Attribute) and y.attr in ("__name__", "__qualname__") and not (isinstance(y.value, ast.Name) and y.value.id == t)]
+        own = [y for y in ast.walk(r.value) if isinstance(y, ast.Attribute) and y.attr in ("__name__", "__qualname__") and isinstance(y.value, ast.Name) and y.value.id in names_t]
+        meta = [y for y in ast.walk(r.value) if isinstance(y, ast.Attribute) and y.attr in ("__name__", "__qualname__") and not (isinstance(y.value, ast.Name) and y.value.id in names_t)]
         desc = f"the type key `{unparse(r.value, 50)}` names the type itself"
         if own and not meta:
             rep.ok(rule, f.qname, desc, f.loc(r))
